@@ -303,7 +303,7 @@ def run_conc(prop, tier, seed, jobs_spec, own_guards, mc, builds=("rel", "dbg"),
     cov = {"states": mcr["distinct"], "transitions": mcr["generated"], "mc_depth": mcr["depth"], "mc_module": mc[0], "mc_config": mc[1][q],
            "traces_validated_against_impl": nexec, "trace_events_validated": consumed, "trace_events_total": events,
            "schedules_generated_by_tlc": len(scheds), "driver_processes": len(jobs), "builds": list(builds),
-           "programs": sorted({t[2]["prog"] for t in traces}), "strategies": sorted({t[2]["strategy"] for t in traces}),
+           "programs": len({t[2]["prog"] for t in traces}), "program_names": sorted({t[2]["prog"] for t in traces}), "strategies": sorted({t[2]["strategy"] for t in traces}),
            "decisive_guards": sorted(own_guards), "atomic_steps_validated": nstep_events, "abandonment_steps_validated": nab, "step_guards": sorted(step_guards), "samples": (scheds[:2] + vlib.sample_lines(traces[0][0], 3) + steps[:2]), "exhaustive": False}
     cov.update(segcov)
     if extra_cov:
